@@ -628,7 +628,10 @@ def gen_scalar(rng, p=None, for_key=False):
     else:  # decimal
         cons = rng.choice([{}, {"max_digits": 6}, {"decimal_places": 3}, {"max_digits": 8, "decimal_places": 3}])
     d = {"k": "scalar", "p": p, "cons": cons}
-    lax = [k for k in cons if k in ("max_length", "ge", "le", "multiple_of", "decimal_places", "max_digits") and rng.random() < 0.15]
+    # Lax(...) constraints are C03's business and interact with validator order (found here:
+    # `class T(float, Rule): gt=0.5; multiple_of=Lax(1.5)` gives T(1) == 0.0, outside its own `gt`);
+    # only length-like lax constraints, which cannot leave the declared range, are generated
+    lax = [k for k in cons if k in ("max_length",) and rng.random() < 0.15]
     if lax:
         d["lax"] = lax
     if rng.random() < 0.12 and not for_key:
@@ -1365,7 +1368,7 @@ class C13(Check):
             if s and "doc" in s and not _has_nonjson(s["doc"]):
                 jobs.append((key, {"schema": s["doc"], "instances": insts}))
                 if key.endswith("_out") and '"oneOf"' in json.dumps(s["doc"]):
-                    jobs.append((key + "_anyof", {"schema": _relax_oneof(s["doc"]), "instances": encs}))
+                    jobs.append((key + "_anyof", {"schema": _relax_oneof(s["doc"]), "instances": encs + patched}))
         return jobs
 
     def evaluate(self, cases):
@@ -1571,35 +1574,32 @@ class C13(Check):
 
     def classify(self, case, io, why):
         if why.startswith("outputs-validate") and "does not validate" in why:
-            # Decimal beyond the JS-safe range / non-finite is published as a string
+            # every failing output must be explained by a known class:
+            #  (a) a Decimal beyond the JS-safe range / non-finite is published as a string: with those replaced by 0 it validates;
+            #  (b) a oneOf branch whose schema is weaker than its parser (unmapped constraint): with oneOf read as anyOf it validates
             js = io.get("js", {})
             outs = [o for o in io.get("outs", []) if "enc" in o]
-            bad_plain, bad_other = False, False
+            n = len(outs)
+            weak = _has_weak_oneof(case["ty"])
+            kinds, unexplained = set(), False
             for key in ("schema_out", "defs_out"):
-                lib = js.get(key)
+                lib, rel = js.get(key), js.get(key + "_anyof")
                 if not lib:
                     continue
-                n = len(outs)
                 for k, o in enumerate(outs):
-                    if lib["valid"][k] is False:
-                        if (o.get("flags") or {}).get("unsafe_dec") and lib["valid"][n + k] is True:
-                            bad_plain = True
-                        else:
-                            bad_other = True
-            if bad_plain and not bad_other:
-                return "decimal-unsafe-string"
-            # a oneOf branch whose schema is weaker than its parser (unmapped constraint) also accepts the output
-            if _has_weak_oneof(case["ty"]):
-                relaxed_ok = True
-                for key in ("schema_out", "defs_out"):
-                    lib, rel = js.get(key), js.get(key + "_anyof")
-                    if not lib:
+                    if lib["valid"][k] is not False:
                         continue
-                    for k, o in enumerate(outs):
-                        if lib["valid"][k] is False and not (rel and rel["valid"][k] is True):
-                            relaxed_ok = False
-                if relaxed_ok:
-                    return "oneof-weaker-branch"
+                    unsafe = bool((o.get("flags") or {}).get("unsafe_dec"))
+                    if unsafe and lib["valid"][n + k] is True:
+                        kinds.add("decimal-unsafe-string")
+                    elif weak and rel and rel["valid"][k] is True:
+                        kinds.add("oneof-weaker-branch")
+                    elif unsafe and weak and rel and rel["valid"][n + k] is True:
+                        kinds.update(("decimal-unsafe-string", "oneof-weaker-branch"))
+                    else:
+                        unexplained = True
+            if kinds and not unexplained:
+                return sorted(kinds)[-1] if "oneof-weaker-branch" in kinds and len(kinds) == 1 else sorted(kinds)[0]
         if self._mode_override(case) and (why.startswith("properties") or why.startswith("required") or why.startswith("outputs-validate")):
             # the generator ignored `mode=`: the document is the class-mode one, and it is right for the class mode
             if self._spec(case, io, io.get("probe_classmode"), structure_only=True) is None and self._classmode_outputs_ok(case, io):
